@@ -10,6 +10,8 @@ clause pooled free-slot counts per (table, due-set) against the normalised weigh
 (binomial z with re-measurement), plus independence of consecutive free picks.
 Live re-tuning shards re-assign weights and intervals through the move table's
 documented attributes between two run calls and judge the second run against the new table.
+Tables also use unusual names (the empty string, '0', 'None', spaces), numpy-typed settings, and weights so small that
+they are all 'close' to each other.
 """
 from __future__ import annotations
 
